@@ -61,6 +61,27 @@ fn fdinfo(ep: c_int) -> HashMap<c_int, u32> {
     m
 }
 
+/// the tokens (epoll `data`) the kernel holds for `fd`, per epoll instance (the i-th instance belongs to loop i)
+fn kernel_tokens(fd: c_int) -> Vec<(usize, u64)> {
+    let mut v = vec![];
+    for (li, ep) in epoll_fds().iter().enumerate() {
+        if let Ok(s) = std::fs::read_to_string(format!("/proc/self/fdinfo/{ep}")) {
+            for line in s.lines() {
+                if let Some(rest) = line.strip_prefix("tfd:") {
+                    let parts: Vec<&str> = rest.split_whitespace().collect();
+                    // tfd: <fd> events: <mask> data: <token> ...
+                    if parts.len() >= 5 && parts[0].parse::<c_int>().ok() == Some(fd) {
+                        if let Ok(k) = u64::from_str_radix(parts[4], 16) {
+                            v.push((li + 1, k));
+                        }
+                    }
+                }
+            }
+        }
+    }
+    v
+}
+
 fn snapshot(eps: &[c_int], slots: &HashMap<u64, c_int>) {
     let mut regs = vec![];
     for (li, ep) in eps.iter().enumerate() {
@@ -230,7 +251,11 @@ fn ready(sc: &Value) {
     let mut handles = vec![];
     for (i, prog) in sc["tasks"].as_array().unwrap().iter().enumerate() {
         let t = i as u64 + 1;
-        let seq: Vec<(u64, c_int)> = prog.as_array().unwrap().iter().map(|s| (s.as_u64().unwrap(), slots[&s.as_u64().unwrap()])).collect();
+        // a step is a slot, or [slot, receive timeout in ms] (default 1 s)
+        let seq: Vec<(u64, c_int, u64)> = prog.as_array().unwrap().iter().map(|s| {
+            let (slot, to) = s.as_array().map_or((s.as_u64().unwrap_or(0), 1000), |a| (a[0].as_u64().unwrap(), a[1].as_u64().unwrap()));
+            (slot, slots[&slot], to)
+        }).collect();
         let start_ms = sc["starts"].as_array().and_then(|a| a.get(i)).and_then(Value::as_u64).unwrap_or(0);
         let h = EventLoops::submit_task(Some(format!("t{t}-sel")), move |_| {
             if start_ms > 0 {
@@ -238,9 +263,11 @@ fn ready(sc: &Value) {
                     s.delay(Duration::from_millis(start_ms));
                 }
             }
-            for (slot, fd) in seq {
+            for (slot, fd, to_ms) in seq {
                 let mut b = [0u8; 1];
-                rec(json!({"ev": "park_b", "task": t, "fd": slot}));
+                let tv = libc::timeval { tv_sec: (to_ms / 1000) as i64, tv_usec: ((to_ms % 1000) * 1000) as i64 };
+                let _ = syscall::setsockopt(None, fd, libc::SOL_SOCKET, libc::SO_RCVTIMEO, std::ptr::from_ref(&tv).cast(), size_of::<libc::timeval>() as u32);
+                rec(json!({"ev": "park_b", "task": t, "fd": slot, "loop": loop_of_thread()}));
                 let r = syscall::recv(None, fd, b.as_mut_ptr().cast(), 1, 0);
                 rec(json!({"ev": "recv_e", "task": t, "fd": slot, "ret": r}));
             }
@@ -257,7 +284,12 @@ fn ready(sc: &Value) {
         while (t0.elapsed().as_millis() as u64) < at {
             std::thread::sleep(Duration::from_millis(1));
         }
-        rec(json!({"ev": "write", "fd": slot}));
+        // ground truth just before the descriptor becomes ready: whose token does the kernel hold for it?
+        let toks: Vec<Value> = kernel_tokens(slots[&slot]).into_iter().map(|(lp, k)| {
+            let task = CO2TASK.lock().unwrap().as_ref().and_then(|m| m.get(&k)).copied().unwrap_or(0);
+            json!({"loop": lp, "task": task})
+        }).collect();
+        rec(json!({"ev": "write", "fd": slot, "toks": toks}));
         let b = [7u8; 1];
         unsafe { libc::write(peers[&slot], b.as_ptr().cast(), 1) };
     }
